@@ -122,7 +122,9 @@ impl<const K: usize> AffTree<K> {
 
             // check if new points are solutions of poly
             let contained_points = zip(candidates.axis_iter(Axis(1)), distances.axis_iter(Axis(1)))
-                .filter(|(_, dist)| dist.iter().all(|val| *val >= 0.))
+                // an infinite distance belongs to a candidate with an infinite coordinate, which
+                // is not a point of the polytope
+                .filter(|(_, dist)| dist.iter().all(|val| val.is_finite() && *val >= 0.))
                 .map(|(point, _)| point.insert_axis(Axis(1)))
                 .collect_vec();
 
